@@ -17,7 +17,11 @@ RULE = ("histories of next/take/peek/skip/limit/copy/append/map/filter/thub/Stre
         "Streams and hubs and fresh iterables among the arguments (every argument gives up its iterator at construction: "
         "each hub is charged exactly one use then). REFUSED calls (mixed iterable / non-iterable arguments with a hub, a "
         "Stream or its iterator among them, Stream(), append(), take/peek with a non-callable constructor or a str count, "
-        "limit(str), tee(x, -1)) must raise the stated exception and change nothing. Families: reuse (one stream: "
+        "limit(str), tee(x, -1)) must raise the stated exception and change nothing. Argument kinds: filter predicate None / bool / lambda / bound method / "
+        "predicates returning non-bool values over items that include zeros; thub / tee of non-iterables of every kind "
+        "(numbers, None, functions, class objects such as list / dict / Stream that merely HAVE __iter__, an instance with "
+        "__iter__ only as an instance attribute) must return that very object. Families: argkinds, long (runs of hundreds "
+        "of items, copies far apart), reuse (one stream: "
         "in-place methods before and after it ran into its end), refused (hub with n uses, "
         "refused and multi-argument calls interleaved with uses, then all uses requested), alias (every source kind x take/peek x constructor x "
         "mutation of the result x follow-ups with copies), hubappend (single- and multi-argument), all pairs of operations on small pools (quick: a "
@@ -150,7 +154,20 @@ def _items(v, ctor="list"):
 
 
 FUNS = {"add": lambda c: (lambda x: x + c), "mul": lambda c: (lambda x: x * c)}
-PREDS = {"even": lambda c: (lambda x: x % 2 == 0), "gt": lambda c: (lambda x: x > c)}
+class _Pred(object):
+  """a predicate given as a bound method"""
+  def __init__(self, c): self.c = c
+  def gt(self, x): return x > self.c
+
+
+PREDS = {"even": lambda c: (lambda x: x % 2 == 0), "gt": lambda c: (lambda x: x > c),
+         "even_int": lambda c: (lambda x: 1 - x % 2),        # a predicate returning 0 / 1, not a bool
+         "gt_method": lambda c: _Pred(c).gt,                 # bound method
+         "none": lambda c: None,                             # filter(None): keep the truthy items
+         "bool": lambda c: bool,                             # the class bool as the predicate
+         "truthy_obj": lambda c: (lambda x: [x] if x else [])}  # returns a (non-)empty list
+PRED_LIT = {"even": "PEven", "even_int": "PEven", "gt": None, "gt_method": None,
+            "none": "PTruthy", "bool": "PTruthy", "truthy_obj": "PTruthy"}
 
 
 def _inplace(objs, s, r):
@@ -194,6 +211,32 @@ def _refused(objs, op):
   raise ValueError(form)
 
 
+class _UserIterable(object):
+  """a user class defining __iter__: its INSTANCES are iterable, the class object is not"""
+  def __iter__(self):
+    return iter([1, 2])
+
+
+class _Plain(object):
+  pass
+
+
+NONITER_KINDS = ("int", "bool", "float", "complex", "none", "func", "builtin", "object", "cls_list", "cls_dict",
+                 "cls_str", "cls_tuple", "cls_set", "cls_stream", "cls_hub", "cls_user", "cls_int", "inst_attr")
+
+
+def _noniter(z, kind):
+  """a non-iterable datum of the given kind (z is only the token the model carries)"""
+  import audiolazy
+  if kind == "int": return z
+  if kind == "inst_attr":    # __iter__ only as an INSTANCE attribute: not iterable (iter() looks at the type)
+    o = _Plain(); o.__iter__ = lambda: iter([1]); return o
+  return {"bool": True, "float": z + 0.5, "complex": complex(z, 1), "none": None, "func": (lambda: z),
+          "builtin": len, "object": object(), "cls_list": list, "cls_dict": dict, "cls_str": str,
+          "cls_tuple": tuple, "cls_set": set, "cls_stream": audiolazy.Stream, "cls_hub": audiolazy.StreamTeeHub,
+          "cls_user": _UserIterable, "cls_int": int}[kind]
+
+
 def _step(objs, op, guard, box, env):
   import audiolazy, collections
   k = op[0]
@@ -216,10 +259,15 @@ def _step(objs, op, guard, box, env):
       objs.append(r); return ["new", len(objs) - 1]
     s = objs[op[1]]
     return _inplace(objs, s, s.append(*pyargs))
-  if k == "thubval":
-    v = audiolazy.thub(op[1], op[2]); return ["item", v] if type(v) is int else ["raise", "BadItem"]
-  if k == "teeval":
-    v = audiolazy.tee(op[1], op[2]); return _items(list(v)) if type(v) is tuple else ["raise", "BadItems"]
+  if k == "thubval":   # thub of a NON-iterable is that very object
+    d = _noniter(op[1], op[3] if len(op) > 3 else "int")
+    v = audiolazy.thub(d, op[2])
+    return ["item", op[1]] if (v is d and type(v) is type(d)) else ["raise", "NotTheObject"]
+  if k == "teeval":    # tee of a non-iterable: n times that very object
+    d = _noniter(op[1], op[3] if len(op) > 3 else "int")
+    v = audiolazy.tee(d, op[2])
+    ok = type(v) is tuple and len(v) == op[2] and all(x is d for x in v)
+    return ["items", [op[1]] * op[2]] if ok else ["raise", "NotTheObject"]
   s = objs[op[1]]
   if k == "next":
     v = next(iter(s)); return ["item", v] if type(v) is int else ["raise", "BadItem"]
@@ -296,7 +344,8 @@ def _exec(case, guard):
 BADROUND = ("none", "inf", "ninf", "nan")
 APPENDS = [["fin", [7, 8]], ["fin", []], ["cyc", [9]], ["cyc", [5, 6]]]
 MAPS = [["add", 10], ["mul", -2]]
-FILTERS = [["even", 0], ["gt", 1], ["gt", 100]]
+FILTERS = [["even", 0], ["gt", 1], ["gt", 100], ["none", 0], ["bool", 0], ["even_int", 0], ["gt_method", 0],
+           ["truthy_obj", 0]]
 COUNTED = ("take", "peek", "skip", "limit")
 
 
@@ -480,6 +529,8 @@ def decorate(ops, rot, always=False):
     else:
       if op[0] == "append" and op[2][0] == "fin":
         op = [op[0], op[1], kinded(op[2], rot)]
+      if op[0] in ("thubval", "teeval"):
+        op = [op[0], op[1], op[2], rot.pick(NONITER_KINDS)]
       if op[0] == "multi":
         op = [op[0], op[1], [a if a[0] == "obj" else ["fresh", a[1], rot.pick(_SINGLE_KINDS)] for a in op[2]]]
       out.append(op)
@@ -566,7 +617,46 @@ def gen_reuse(tier, rng):
                      ["reuse", "len=%d" % ln])
 
 
+def gen_argkinds(tier, rng):
+  """kinds of ARGUMENT of the methods: every kind of filter predicate (None, bool, lambda, bound method, predicates
+  returning non-bool values) over items that include falsy ones, directly and through a hub; every kind of
+  non-iterable datum for thub / tee (numbers, None, functions, class objects that merely have __iter__, an instance
+  with __iter__ only as an instance attribute): it must come back as the very same object"""
+  rot = _Rot()
+  tails = [[["take", 0, ["inf"]]], [["copy", 0], ["take", 1, ["int", 3]], ["take", 0, ["int", 9]]],
+           [["peek", 0, ["int", 2]], ["take", 0, ["int", 9]]]]
+  for pool in (["fin", [0, 1, 0, 2, -3, 0]], ["fin", [0, 0]], ["cyc", [0, 5]], ["cyc", [0]]):
+    for q in FILTERS:
+      for tail in tails:
+        yield finish([kinded(pool, rot)], [["filter", 0, q]] + tail, ["argkinds", "filter", q[0]])
+      # through a hub: hub.filter(..) is Stream(hub).filter(..)
+      yield finish([kinded(pool, rot)], [["thub", 0, 2], ["filter", 1, q], ["take", 2, ["int", 4]], ["use", 1],
+                                         ["take", 3, ["int", 4]], ["use", 1]], ["argkinds", "hubfilter", q[0]])
+      yield finish([kinded(pool, rot)], [["filter", 0, q], ["filter", 0, FILTERS[0]], ["map", 0, ["mul", -2]],
+                                         ["filter", 0, q], ["take", 0, ["int", 5]]], ["argkinds", "filter2", q[0]])
+  for kind in NONITER_KINDS:
+    for n in (0, 1, 3):
+      yield finish([["fin", [1, 2]]], [["thubval", 7, n, kind], ["teeval", 7, n, kind], ["take", 0, ["int", 1]],
+                                       ["thubval", 7, n, kind]], ["argkinds", "noniter", kind])
+
+
+def gen_long(tier, rng):
+  """runs far longer than any internal buffer (the tee link cells hold 57 items): copies consumed far apart"""
+  big = list(range(-5, 400))
+  for pool in (["fin", big, "list"], ["fin", big, "gen"], ["cyc", [1, 2, 3], "args"], ["cyc", [0, 5], "it_cycle"]):
+    for a, b in ((150, 300), (300, 60), (57, 58), (114, 1)):
+      yield finish([pool], [["copy", 0], ["take", 0, ["int", a]], ["copy", 1], ["take", 1, ["int", b]],
+                            ["take", 2, ["int", a + 7]], ["filter", 0, ["none", 0]], ["take", 0, ["int", 120]],
+                            ["skip", 1, ["int", 200]], ["take", 1, ["int", 5]]], ["long"])
+      yield finish([pool], [["tee", 0, 3], ["take", 1, ["int", a]], ["take", 3, ["int", b]], ["peek", 2, ["int", a + b]],
+                            ["take", 2, ["int", 3]]], ["long"])
+
+
 def gen_hist(tier, rng):
+  for c in gen_argkinds(tier, rng):
+    yield c
+  for c in gen_long(tier, rng):
+    yield c
   for c in gen_reuse(tier, rng):
     yield c
   for c in gen_refused(tier, rng):
@@ -642,7 +732,7 @@ def lit_op(op):
   if k == "map":
     return "OMap %s (%s %s)" % (L.nat(op[1]), {"add": "FAdd", "mul": "FMul"}[op[2][0]], L.z(op[2][1]))
   if k == "filter":
-    return "OFilter %s %s" % (L.nat(op[1]), "PEven" if op[2][0] == "even" else "(PGt %s)" % L.z(op[2][1]))
+    return "OFilter %s %s" % (L.nat(op[1]), PRED_LIT[op[2][0]] or "(PGt %s)" % L.z(op[2][1]))
   if k in ("thub", "tee"):
     return "%s %s %s" % (name, L.nat(op[1]), L.nat(op[2]))
   if k == "appendobj":
